@@ -31,7 +31,7 @@ def workload(ck, quick):
         progs.append(("script:" + name, src, mods))
     try:
         from ..gen import profiles
-        n = 60 if quick else 1500
+        n = 400 if quick else 8000
         for name, src, m in profiles.gc_workload(ck.rng.fork("profiles"), n):
             progs.append((name, src, m))
     except ImportError:
